@@ -411,6 +411,14 @@ func GenC13(seed uint64, run int) *Trace {
 	if r.Chance(1, 10) {
 		spec.HeaderEnc = r.Range(1, 2) // a header that is accepted but not what the library itself writes
 	}
+	if len(spec.Blocks) > 0 && r.Chance(1, 6) {
+		// a root that is NOT a block of the archive but shares its multihash with one (another codec or CID
+		// version over the same bytes): present-roots accounting must compare CIDs
+		b := Pick(r, spec.Blocks)
+		if alt, ok := map[string]string{"raw": "cbor", "cbor": "pb", "pb": "v0", "v0": "raw"}[b.Kind]; ok {
+			spec.Roots = append(spec.Roots, BlkSpec{Kind: alt, Seed: b.Seed, Size: b.Size})
+		}
+	}
 	if r.Chance(1, 25) {
 		// a CID around and beyond the default index CID limit (2048 bytes): limits that belong to indexing
 		// must not leak into inspection or scanning
